@@ -43,8 +43,12 @@ func runC11(c *Ctx, r *Report) {
 	if worker == nil {
 		infra("unresolved anchor: fetch worker go literal in processQueue")
 	}
-	semRelease := func(fn *Fn, call *ast.CallExpr) bool { return reachesExt(c, fn, call, "golang.org/x/sync/semaphore", "Weighted", "Release", 3) }
-	semAcquire := func(fn *Fn, call *ast.CallExpr) bool { return reachesExt(c, fn, call, "golang.org/x/sync/semaphore", "Weighted", "Acquire", 3) }
+	semRelease := func(fn *Fn, call *ast.CallExpr) bool {
+		return reachesExt(c, fn, call, "golang.org/x/sync/semaphore", "Weighted", "Release", 3)
+	}
+	semAcquire := func(fn *Fn, call *ast.CallExpr) bool {
+		return reachesExt(c, fn, call, "golang.org/x/sync/semaphore", "Weighted", "Acquire", 3)
+	}
 
 	// the in-progress counter: an int variable of processQueue tested by a cond-wait loop
 	var counter types.Object
